@@ -67,6 +67,8 @@ func runThorough(id string, p *Prog, r *Report, repo string) {
 	selfValidate(id, p, r, repo)
 	// (c) and against the stored seeded changes
 	replaySeeds(id, r, repo, verifDirGlobal)
+	// and stays silent on the stored behaviour-preserving changes
+	replayBenign(id, r, repo, verifDirGlobal)
 	// (d) whole-program behaviour-preserving transformations leave every verdict unchanged
 	runProbes(id, p, r, r, repo)
 }
